@@ -370,7 +370,7 @@ public:
    * or greater than 1.0
    */
   void minimum_load_factor(const double mlf) {
-    if (mlf < 0.0) {
+    if (!(mlf >= 0.0)) {
       throw std::invalid_argument("load factor " + std::to_string(mlf) +
                                   " cannot be "
                                   "less than 0");
